@@ -173,13 +173,13 @@ LEMMA SubInv ==
     <2> SUFFICES ASSUME NEW via, Poll(s, via) PROVE IndInv'
       OBVIOUS
     <2>1. CASE ver = 0
-      BY <2>1 DEF Poll, IndInv, Shape, WriteGuardsOfOwners, ClosedIffNoOwner, ObservedLeVer, ReadyIffUnseen,
+      BY <2>1 DEF Poll, PollEffect, IndInv, Shape, WriteGuardsOfOwners, ClosedIffNoOwner, ObservedLeVer, ReadyIffUnseen,
                   ArmedRegisteredOrWoken, NoLostWake, MustBeWoken
     <2>2. CASE ver # 0 /\ obs[s] < ver
-      BY <2>2 DEF Poll, IndInv, Shape, WriteGuardsOfOwners, ClosedIffNoOwner, ObservedLeVer, ReadyIffUnseen,
+      BY <2>2 DEF Poll, PollEffect, IndInv, Shape, WriteGuardsOfOwners, ClosedIffNoOwner, ObservedLeVer, ReadyIffUnseen,
                   ArmedRegisteredOrWoken, NoLostWake, MustBeWoken
     <2>3. CASE ver # 0 /\ ~(obs[s] < ver)
-      BY <2>3 DEF Poll, IndInv, Shape, WriteGuardsOfOwners, ClosedIffNoOwner, ObservedLeVer, ReadyIffUnseen,
+      BY <2>3 DEF Poll, PollEffect, IndInv, Shape, WriteGuardsOfOwners, ClosedIffNoOwner, ObservedLeVer, ReadyIffUnseen,
                   ArmedRegisteredOrWoken, NoLostWake, MustBeWoken
     <2> QED BY <2>1, <2>2, <2>3
   <1>2. NextNow(s) => IndInv'
